@@ -590,6 +590,58 @@ def check_true_answer_unused(ctx, F):
     ctx.extra['of_which_branch_on_the_answer'] = n_br
 
 
+def check_extend_stops(ctx, F):
+    """`extend_from_iter` hands the words to `write` one by one and stops at the first refusal: after a refused word no
+    further word reaches the sink (a sink whose failure is transient would otherwise receive a stream with a hole), and the
+    caller's iterator is not drained past the failure.  Decided on the trait's provided body (which every sink without an
+    override inherits): in loop form, each iteration that goes on has examined the result of its write (`?` or a match); in
+    adaptor form, the closure that writes is driven by a short-circuiting adaptor (try_for_each / try_fold), not by
+    fold / for_each / map, which evaluate the closure for every remaining item."""
+    TR = 'backends::WriteWords'
+    key = 'R2/extend-stops-at-first-refusal/' + TR
+    role = 'extend_from_iter stops at the first refused word'
+    bs = [b for b in F.bodies if b.promoted is None and b.name == 'extend_from_iter' and b.trait == TR and b.impl is None]
+    if not bs:
+        return ctx.bad('R2', role, TR, 'provided method not found (public anchor missing)', key=key)
+    b = bs[0]
+    ctx.touch(b)
+    ev, paths = rules.evaluate(b)
+    is_write = lambda e: e['kind'] == 'call' and e['callee'].endswith('WriteWords::write')
+    bad = unk = None
+    n_sites = 0
+    for r in paths or []:
+        ws = [e for e in r.events if is_write(e)]
+        if not ws:
+            continue
+        n_sites += 1
+        if r.end == 'backedge':
+            res = ws[-1]['result']
+            examined = any(t[0] == 'discr' and ((t[1] == ('try', res) and sym.discr_variant(t, v) == 'Continue') or (t[1] == res and sym.discr_variant(t, v) == 'Ok')) for t, v, _ in r.preds)
+            if not examined:
+                bad = 'a loop iteration goes on to the next word without having examined the result of write()'
+    for cb in F.closures_of(b):
+        _, cp = rules.evaluate(cb)
+        if not any(is_write(e) for r in cp or [] for e in r.events):
+            continue
+        n_sites += 1
+        drivers = set()
+        for r in paths or []:
+            for e in r.events:
+                if e['kind'] == 'call' and any(sym.contains(a, lambda x: isinstance(x, tuple) and x and x[0] == 'agg' and isinstance(x[1], tuple) and x[1][0] == 'closure' and x[1][1] == cb.defpath) for a in e['args'] if isinstance(a, tuple)):
+                    drivers.add(e['callee'])
+        if any(d.endswith(('::try_for_each', '::try_fold')) for d in drivers) and not any(d.endswith(('Iterator::fold', 'Iterator::for_each', 'Iterator::map')) for d in drivers):
+            continue
+        if any(d.endswith(('Iterator::fold', 'Iterator::for_each')) for d in drivers):
+            bad = 'the words are written by a closure driven by %s, which calls it for every remaining item: after a refused word the sink keeps receiving the following ones (a hole in the stream) and the iterator is drained' % sorted(drivers)[0].split('::')[-1]
+        else:
+            unk = 'the writing closure is driven by %s' % sorted(drivers)
+    if bad:
+        return ctx.bad('R2', role, b.defpath, bad, key=key, loc=rules.loc(b))
+    if unk or not n_sites:
+        return ctx.unresolved('R2', role, b.defpath, unk or 'no call of write() found', key=key)
+    return ctx.ok('R2', role, b.defpath, 'every write is examined before the next item is taken', key=key)
+
+
 def check_positional_ctors(ctx, F):
     """Constructors that take a position accept exactly what seek accepts (p <= len): a position pos() can report and
     seek() can restore must also be usable to re-open the buffer."""
@@ -806,6 +858,7 @@ def run(ctx):
         check_positional_ctors(ctx, F)
         check_maybe_exhausted_sources(ctx, F)
         check_true_answer_unused(ctx, F)
+        check_extend_stops(ctx, F)
         check_into_reversed(ctx, F)
         check_sticky_and_delegation(ctx, F)
     ctx.assume('SafeBuf contract: as_ref()/as_mut() of a SafeBuf never shrink (unsafe trait, implementors are std types only; checked under C20)')
